@@ -23,16 +23,19 @@ func (s *c16Seq) L(str string) *c16Seq {
 	return s
 }
 func (s *c16Seq) Csi(p string, f byte) *c16Seq { s.items = append(s.items, c16Csi(p, f)); return s }
-func (s *c16Seq) Pad(c byte) *c16Seq            { s.items = append(s.items, c16I("pad", int(c))); return s }
-func (s *c16Seq) CRLF() *c16Seq                 { s.items = append(s.items, c16I("nl", 13, 10)); return s }
-func (s *c16Seq) LF() *c16Seq                   { s.items = append(s.items, c16I("nl", 10)); return s }
-func (s *c16Seq) Dup(c byte) *c16Seq            { s.items = append(s.items, c16I("dup", int(c))); return s }
-func (s *c16Seq) Stray(c byte) *c16Seq          { s.items = append(s.items, c16I("stray", int(c))); return s }
-func (s *c16Seq) Bang() *c16Seq                 { s.items = append(s.items, c16I("bang")); return s }
-func (s *c16Seq) Wrap() *c16Seq                 { s.items = append(s.items, c16I("wrap")); return s }
-func (s *c16Seq) Etx() *c16Seq                  { s.items = append(s.items, c16I("etx")); return s }
-func (s *c16Seq) Txt(t string) *c16Seq          { s.items = append(s.items, c16I("txt", c16Ints(t)...)); return s }
-func (s *c16Seq) It(it c16Item) *c16Seq         { s.items = append(s.items, it); return s }
+func (s *c16Seq) Pad(c byte) *c16Seq           { s.items = append(s.items, c16I("pad", int(c))); return s }
+func (s *c16Seq) CRLF() *c16Seq                { s.items = append(s.items, c16I("nl", 13, 10)); return s }
+func (s *c16Seq) LF() *c16Seq                  { s.items = append(s.items, c16I("nl", 10)); return s }
+func (s *c16Seq) Dup(c byte) *c16Seq           { s.items = append(s.items, c16I("dup", int(c))); return s }
+func (s *c16Seq) Stray(c byte) *c16Seq         { s.items = append(s.items, c16I("stray", int(c))); return s }
+func (s *c16Seq) Bang() *c16Seq                { s.items = append(s.items, c16I("bang")); return s }
+func (s *c16Seq) Wrap() *c16Seq                { s.items = append(s.items, c16I("wrap")); return s }
+func (s *c16Seq) Etx() *c16Seq                 { s.items = append(s.items, c16I("etx")); return s }
+func (s *c16Seq) Txt(t string) *c16Seq {
+	s.items = append(s.items, c16I("txt", c16Ints(t)...))
+	return s
+}
+func (s *c16Seq) It(it c16Item) *c16Seq { s.items = append(s.items, it); return s }
 func (s *c16Seq) T(lf bool) *c16Seq {
 	if lf {
 		s.items = append(s.items, c16I("term", 10))
